@@ -129,6 +129,113 @@ func main() {
 	}
 	fmt.Println("].")
 	printPreimage(repo)
+	printDupCheck(repo)
+}
+
+// ------------------------------------------------------------------ repeated pairs in a vote string
+
+// printDupCheck: how types.NewExchangeRateTuplesFromString detects a pair named twice.  form "seen-set" = in the
+// body of its loop a map / set indexed by the tuple's pair is looked up (comma-ok index, .Has, .Contains) AND
+// written (index assignment, .Add, .Insert); "none" = no lookup; "other" otherwise.  skips = the conditions of the
+// statements of the loop body that can leave the iteration (continue / break / goto) BEFORE the lookup.
+func printDupCheck(repo string) {
+	form, skips := "other", []string{}
+	isPair := func(e ast.Expr) bool { return strings.HasSuffix(strings.ToLower(Nospace(e)), "pair") }
+	looks := func(n ast.Node) (found bool) {
+		ast.Inspect(n, func(x ast.Node) bool {
+			switch y := x.(type) {
+			case *ast.AssignStmt:
+				if len(y.Lhs) == 2 && len(y.Rhs) == 1 {
+					if ix, ok := y.Rhs[0].(*ast.IndexExpr); ok && isPair(ix.Index) {
+						found = true
+					}
+				}
+			case *ast.CallExpr:
+				if sel, ok := y.Fun.(*ast.SelectorExpr); ok && len(y.Args) == 1 && isPair(y.Args[0]) && (sel.Sel.Name == "Has" || sel.Sel.Name == "Contains") {
+					found = true
+				}
+			}
+			return true
+		})
+		return
+	}
+	records := func(n ast.Node) (found bool) {
+		ast.Inspect(n, func(x ast.Node) bool {
+			switch y := x.(type) {
+			case *ast.AssignStmt:
+				if len(y.Lhs) == 1 && y.Tok == token.ASSIGN {
+					if ix, ok := y.Lhs[0].(*ast.IndexExpr); ok && isPair(ix.Index) {
+						found = true
+					}
+				}
+			case *ast.CallExpr:
+				if sel, ok := y.Fun.(*ast.SelectorExpr); ok && len(y.Args) == 1 && isPair(y.Args[0]) && (sel.Sel.Name == "Add" || sel.Sel.Name == "Insert") {
+					found = true
+				}
+			}
+			return true
+		})
+		return
+	}
+	leaves := func(n ast.Node) (found bool) {
+		ast.Inspect(n, func(x ast.Node) bool {
+			if _, ok := x.(*ast.FuncLit); ok {
+				return false
+			}
+			if _, ok := x.(*ast.BranchStmt); ok {
+				found = true
+			}
+			return true
+		})
+		return
+	}
+	for _, fl := range ParseDir(filepath.Join(repo, "x/oracle/types")) {
+		for _, dcl := range fl.F.Decls {
+			fd, ok := dcl.(*ast.FuncDecl)
+			if !ok || fd.Body == nil || fd.Name.Name != "NewExchangeRateTuplesFromString" {
+				continue
+			}
+			form = "none"
+			ast.Inspect(fd.Body, func(n ast.Node) bool {
+				var body *ast.BlockStmt
+				switch l := n.(type) {
+				case *ast.RangeStmt:
+					body = l.Body
+				case *ast.ForStmt:
+					body = l.Body
+				}
+				if body == nil {
+					return true
+				}
+				at := -1
+				for i, st := range body.List {
+					if looks(st) {
+						at = i
+						break
+					}
+				}
+				if at < 0 {
+					return true
+				}
+				form = "other"
+				if records(body) {
+					form = "seen-set"
+				}
+				for _, st := range body.List[:at] {
+					if leaves(st) {
+						c := Nospace(st)
+						if ifs, ok := st.(*ast.IfStmt); ok {
+							c = Nospace(ifs.Cond)
+						}
+						skips = append(skips, c)
+					}
+				}
+				return false
+			})
+		}
+	}
+	fmt.Println("(* types.NewExchangeRateTuplesFromString: (form of the repeated-pair test, conditions under which an iteration leaves before it) *)")
+	fmt.Printf("Definition rates_dup_check : string * list string := (%s, %s).\n", CoqString(form), coqStrings(skips))
 }
 
 // ------------------------------------------------------------------ hash preimage
